@@ -106,9 +106,32 @@ static result *reference(int learner, int nthreads, int iterations, int groups, 
   REF[nref].key = key; REF[nref].r = r; return &REF[nref++].r;
 }
 
+/* driver D: y-scrambling; its inner bootstrap validation hard-codes 4 workers x 100 iterations, the outer loop draws
+ * the permutation from the caller's stream between the inner validations */
+static result run_yscrambling(int learner, int loo, int fam) {
+  matrix *x = mk(7, learner == 0 ? 2 : 1, fam, 0.5), *y = mk_y(x, fam), *cc; MODELINPUT in = initModelInput();
+  in.mx = x; in.my = y; in.nlv = learner == 0 ? 1 : 0; in.xautoscaling = learner == 0 ? 1 : 0; in.yautoscaling = 0;
+  ValidationArg va = initValidationArg(); va.vtype = loo ? LOO : BootstrapRGCV; va.rgcv_group = 3; va.rgcv_iterations = 4;
+  initMatrix(&cc);
+  YScrambling(&in, learner == 0 ? _PLS_ : _MLR_, va, 1, cc, 2, NULL);
+  result r = take(cc); DelMatrix(&cc); DelMatrix(&x); DelMatrix(&y); return r;
+}
+
 #ifndef C06_FREE
 static void body(void) {
-  int driver = vx_choose("driver", 4);
+  int driver = vx_choose("driver", 5);
+  if (driver == 4) {            /* D: YScrambling */
+    int learner = vx_choose("learner", 2), loo = vx_choose("validation", 2), fam = vx_choose("data", 2);
+    if (!vx_thorough()) vx_require(fam == 0 && learner == 1);   /* quick: MLR, one data set, both validation kinds */
+    memset(STREAM, 0, sizeof STREAM); memset(DRAWS, 0, sizeof DRAWS); LAST_SEED = 0; SINCE_SEED = 0; vs_prune_cb = 0;
+    static result refd[2][2][2]; static char haved[2][2][2];
+    if (!haved[learner][loo][fam]) { vs_begin(1, 0); refd[learner][loo][fam] = run_yscrambling(learner, loo, fam); vs_end(); haved[learner][loo][fam] = 1; }
+    vs_preemption_bound = vx_thorough() ? 2 : 1;
+    vs_begin(0, vx_thorough() ? 100 : 12); result r = run_yscrambling(learner, loo, fam); vs_end(); vx_transition(1);
+    char key[96]; snprintf(key, sizeof key, "schedule|YScrambling|%s,%s", LNAME[learner], loo ? "LOO" : "bootstrap");
+    vx_check(same_bits(&r, &refd[learner][loo][fam]), key, "y-scrambling table under this schedule differs from the default schedule (max rel diff %g)", reldiff(&r, &refd[learner][loo][fam]));
+    vx_outcome(r.h); free(r.v); return;
+  }
   memset(STREAM, 0, sizeof STREAM); memset(DRAWS, 0, sizeof DRAWS); LAST_SEED = 0; SINCE_SEED = 0;
   vs_prune_cb = 0; vs_preemption_bound = 1000000;
   if (driver <= 1) {            /* A: 2 workers, B: 3 workers */
@@ -180,7 +203,7 @@ int main(int argc, char **argv) {
   vx_describe("pass", "free-running real threads under ThreadSanitizer over the driver bodies (bootstrap CV with 2/4 workers, concurrent seeded callers, leave-one-out pools); a reported race terminates the worker and is attributed to the path");
   vx_set_shard_depth(2);
 #else
-  vx_describe("drivers", "A: BootstrapRandomGroupsCV 2 workers x {PLS,MLR,LDA} x 2 data sets; B: 3 workers (decision horizon 400); C: two user threads, each one of {random_kfold_group_generator, train_test_split, KMeansppCenters} after seeding; E: nthreads in {1,2,3,4,6,8} with 24 iterations under the default schedule");
+  vx_describe("drivers", "A: BootstrapRandomGroupsCV 2 workers x {PLS,MLR,LDA} x 2 data sets; B: 3 workers (decision horizon 400); C: two user threads, each one of {random_kfold_group_generator, train_test_split, KMeansppCenters} after seeding; E: nthreads in {1,2,3,4,6,8} with 24 iterations under the default schedule; D: YScrambling (PLS, MLR) x (LOO, bootstrap validation with its hard-coded 4 workers x 100 iterations), 1 scrambling iteration, decision horizon 12 (100 thorough; quick: MLR on one data set only), preemption bound 1 (2)");
   vx_describe("scheduling points", "pthread_create, thread exit, blocking pthread_join, entry of srand_/rand_/randInt/randDouble; exactly one thread runs at a time; enabled set ordered running-first then ascending id");
   vx_describe("bounds", "mode 0: all schedules with at most B preemptions (A, C: 2 quick / 3 thorough; B: 1 / 2), no state merging; mode 1: unbounded preemptions with merging on the canonical state (per-thread run state, draws, hash of received values; last srand_ argument in global order and draws since), state cap 200000 (A, C in both tiers, B in thorough)");
   vx_describe("oracle", "every complete schedule: result bit-identical to the default schedule and within 1e-12 of the single-thread run; concurrent seeded callers each equal their stand-alone outcome");
